@@ -524,7 +524,8 @@ class Recorder:
                 if rec.capture_solver:
                     rec.solver_calls.append(call)
                 raise
-            call["w"] = w.detach().clone()
+            call["w"] = w.detach().clone()  # the value as it was reported
+            call["ret"] = w  # the object the caller was handed (it must still say the same later on)
             if rec.capture_solver:
                 rec.solver_calls.append(call)
             return w
@@ -644,8 +645,9 @@ def replay_history(cfg, moves):
     return p
 
 
-def make_case(rng, size, pos, evaluator, budget, noise, reuse):
+def make_case(rng, size, pos, evaluator, budget, noise, reuse, descend=None):
     return {
+        "descend": descend,
         "size": size,
         "pos": ser.pos_str(pos),
         "evaluator": evaluator,
@@ -676,12 +678,23 @@ def single_thread():
         pass
 
 
-def run_case(case, hold_root=False):
+def run_case(case, hold_root=False, shared=None):
     """Run the real search on a case.  Returns a RunResult with: phases (list of dicts with budget,
-    start text, choices, answers, dump), pos_before/pos_after, solver_calls, error, final tree and
-    recorder (for C09's follow-up calls).  When the search raises, the case is run once more through
-    `analyze_tree` on a root node the harness holds, so that the tree as it stood when the exception
-    escaped can be dumped (`partial`)."""
+    start text, choices, answers, dump), pos_before/pos_after, solver_calls, error, the trees and the
+    recorder (for C09's follow-up calls).
+
+    Phases of a case: `analyze(p)` with the budget; optionally `analyze_tree` on the same root with
+    the larger limit `reuse`; optionally (`descend`: list of {pick, extra}) `analyze_tree` on a CHILD
+    of the tree searched so far, taken as the new root with `extra` more visits — the way a game
+    played move by move walks down its tree.  `root_tree` stays the first root (its statistics are
+    then not touched by the child's search), `tree` is the last root searched.
+
+    `shared`: a dict that carries ONE engine object (and its recorder) from case to case, so that an
+    engine's lifetime spans several searches (different positions, sizes, configurations).
+
+    When the search raises, the case is run once more through `analyze_tree` on a root node the
+    harness holds, so that the tree as it stood when the exception escaped can be dumped
+    (`partial`); with a shared engine the root is held from the start."""
     import torch
     from tak import mcts
 
@@ -693,29 +706,64 @@ def run_case(case, hold_root=False):
     res.partial = None
     res.nonfinite = False
     res.phases = []
-    evaluator = make_evaluator(case)
-    rec = Recorder(evaluator, case["sampler"], case["sseed"])
+    if shared is not None and "engine" in shared:
+        rec, engine = shared["rec"], shared["engine"]
+        rec.sampler = case["sampler"]
+        rec.srng = random.Random(case["sseed"])
+        engine.config.simulation_limit = case["budget"]
+        engine.config.root_noise_alpha = case["noise_alpha"]
+        engine.config.root_noise_mix = case["mix"]
+        engine.config.C = case["C"]
+        engine.config.cutoff_prob = case["cutoff"]
+        rec.solver_calls = []
+    else:
+        evaluator = make_evaluator(case)
+        rec = Recorder(evaluator, case["sampler"], case["sseed"])
+        cfg = mcts.Config(
+            time_limit=0,
+            simulation_limit=case["budget"],
+            root_noise_alpha=case["noise_alpha"],
+            root_noise_mix=case["mix"],
+            C=case["C"],
+            cutoff_prob=case["cutoff"],
+        )
+        engine = mcts.MCTS(cfg, rec)
+        if shared is not None:
+            shared["rec"], shared["engine"] = rec, engine
+    if shared is not None:
+        hold_root = True
     res.rec = rec
     torch.manual_seed(case["sseed"])
-    cfg = mcts.Config(
-        time_limit=0,
-        simulation_limit=case["budget"],
-        root_noise_alpha=case["noise_alpha"],
-        root_noise_mix=case["mix"],
-        C=case["C"],
-        cutoff_prob=case["cutoff"],
-    )
-    engine = mcts.MCTS(cfg, rec)
     res.engine = engine
     res.pos = pos
     tree = None
-    budgets = [case["budget"]] + ([case["reuse"]] if case.get("reuse") else [])
+    res.root_tree = None
+    steps = [("fresh", case["budget"], None)]
+    if case.get("reuse"):
+        steps.append(("same", case["reuse"], None))
+    for d in case.get("descend") or []:
+        steps.append(("child", d["extra"], d["pick"]))
     with rec:
-        for k, n in enumerate(budgets):
+        for k, (how, n, pick) in enumerate(steps):
             c0, a0 = rec.mark()
-            start = fresh_text(pos) if tree is None else res.phases[-1]["dump"]
-            prev_sims = 0 if tree is None else int(tree.simulations)
             held = None
+            root_path = None
+            if how == "child":
+                kids = tree.children or []
+                if not kids:
+                    break
+                visited = [i for i, c in enumerate(kids) if c.simulations > 0]
+                pool = visited if visited and pick % 10 < 8 else list(range(len(kids)))
+                ci = pool[(pick // 10) % len(pool)]
+                tree = kids[ci]
+                root_path = ci
+                n = int(tree.simulations) + n
+            try:
+                start = fresh_text(pos) if tree is None else dump_tree(tree, rec.ev_of)
+            except NonFinite as e:
+                res.error = "NonFinite statistic in tree: %s" % (e,)
+                break
+            prev_sims = 0 if tree is None else int(tree.simulations)
             try:
                 if tree is None and hold_root:
                     held = mcts.Node(position=pos, move=None)
@@ -737,6 +785,8 @@ def run_case(case, hold_root=False):
                     except Exception:
                         res.partial = None
                 break
+            if res.root_tree is None:
+                res.root_tree = tree
             try:
                 dump = dump_tree(tree, rec.ev_of)
             except NonFinite as e:
@@ -744,6 +794,8 @@ def run_case(case, hold_root=False):
                 break
             res.phases.append(
                 {
+                    "how": how,
+                    "child": root_path,
                     "budget": n,
                     "prev_sims": prev_sims,
                     "start": start,
